@@ -1,29 +1,45 @@
 #!/bin/sh
 # MANIFEST.setup_cmd: build the framework from files on disk only (offline).
-# Builds the Lean library of every claimed property (all theorems are re-checked here), the model
-# driver executables, and warms the Go build cache for extractor and harnesses.
+# Builds the shared Lean modules, then per property: regenerated facts, Props/Tie (all theorems are re-checked here),
+# the model driver executable and the Go harness. A failure in ONE property's build is reported but does not fail
+# setup: that property's own check rebuilds its targets, attributes the failure to a declaration and reports it as
+# a broken obligation. Only a failure of the shared base fails setup.
 cd "$(dirname "$0")" || exit 2
 export GOFLAGS=-mod=mod GOPROXY=off
 mkdir -p .build lean/GojaModel/Generated evidence
 PROPS=$(python3 -c "import json;print(' '.join(c['property_id'] for c in json.load(open('MANIFEST.json'))['checks']))")
-rc=0
-# regenerate facts first (Tie modules import Generated/*)
-if [ -f extract/main.go ]; then
-  (cd extract && go build -o ../.build/extract . && ../.build/extract -repo "${VERIF_REPO:-/repo}" -out ../lean/GojaModel/Generated) || rc=1
-fi
-targets="GojaModel.Audit"
+(cd lean && lake build GojaModel.Base.Proto GojaModel.Audit) || { echo "setup: shared Lean base failed"; exit 1; }
+(cd extract && go build -o ../.build/extract .) || { echo "setup: extractor failed to build"; exit 1; }
+cp /repo/go.sum harness/go.sum 2>/dev/null
+failed=""
+for p in $PROPS; do
+  low=$(echo "$p" | tr 'A-Z' 'a-z')
+  ./.build/extract -repo "${VERIF_REPO:-/repo}" -out lean/GojaModel/Generated -only "$p" >/dev/null 2>.build/extract_$p.err || { echo "setup: extractor reported a problem for $p (see its check)"; failed="$failed $p"; }
+done
+# one lake invocation for all properties (parallel), then per property to find out which ones failed
+targets=""
 for p in $PROPS; do
   low=$(echo "$p" | tr 'A-Z' 'a-z')
   [ -f "lean/GojaModel/$p/Props.lean" ] && targets="$targets GojaModel.$p.Props"
   [ -f "lean/GojaModel/$p/Tie.lean" ] && targets="$targets GojaModel.$p.Tie"
   [ -f "lean/GojaModel/$p/Driver.lean" ] && targets="$targets model_$low"
 done
-(cd lean && lake build $targets) || rc=1
-cp /repo/go.sum harness/go.sum 2>/dev/null
+if ! (cd lean && lake build $targets) >.build/lake_all.log 2>&1; then
+  tail -5 .build/lake_all.log
+  for p in $PROPS; do
+    low=$(echo "$p" | tr 'A-Z' 'a-z')
+    t=""
+    [ -f "lean/GojaModel/$p/Props.lean" ] && t="$t GojaModel.$p.Props"
+    [ -f "lean/GojaModel/$p/Tie.lean" ] && t="$t GojaModel.$p.Tie"
+    [ -f "lean/GojaModel/$p/Driver.lean" ] && t="$t model_$low"
+    (cd lean && lake build $t) >.build/lake_$p.log 2>&1 || { echo "setup: Lean build of $p failed (its check will report the broken obligation)"; failed="$failed $p"; }
+  done
+fi
 for p in $PROPS; do
   low=$(echo "$p" | tr 'A-Z' 'a-z')
   if [ -d "harness/cmd/$low" ]; then
-    (cd harness && go build -tags verif -o "../.build/harness_$low" "./cmd/$low") || rc=1
+    (cd harness && go build -tags verif -o "../.build/harness_$low" "./cmd/$low") 2>.build/gobuild_$p.err || { echo "setup: harness of $p failed to build"; failed="$failed $p"; }
   fi
 done
-exit $rc
+[ -n "$failed" ] && echo "setup: problems in:$failed"
+exit 0
